@@ -103,7 +103,7 @@ func runC26x(c c26Case) *vstat.Failure {
 	}
 
 	witness := "w_" + tag + ".mtail"
-	files := map[int]*c26File{}  // model of the directory
+	files := map[int]*c26File{}    // model of the directory
 	running := map[string]string{} // model: program name -> stamp it runs
 	nstamp := 0
 	history := map[int][]string{} // slot -> stamps of the valid contents it held, oldest first
